@@ -167,6 +167,36 @@ Definition valid_pixels_covpix (m : smap) (c : Z) : option (list Z) :=
   else Some [].
 
 
+(* coverage_map (healSparseMap.py:989-1021): per-block counts of valid cells; entry j+1 of the
+   per-block counts is assigned to coverage pixel block_to_cov[j] (after the F26 repair; the
+   pinned code paired block-order counts with ascending coverage pixels) *)
+Fixpoint assign_counts (cov : list Z) (b2c : list Z) (counts : list Z) : list Z :=
+  match b2c, counts with
+  | c :: r, n :: t => assign_counts (zupd cov c n) r t
+  | _, _ => cov
+  end.
+
+Definition nblocks (m : smap) : Z := zlen (sp m) / nfine m.
+
+Definition block_counts (m : smap) : list Z := map (block_count m) (zrange 0 (nblocks m)).
+
+Definition coverage_counts (m : smap) : list Z :=
+  assign_counts (zrepeat 0 (ncov m)) (block_to_cov (nfine m) (idx m)) (tl (block_counts m)).
+
+(* fracdet_map (healSparseMap.py:1035-1099): counts per group of r = nfine_per_frac cells, over the
+   whole storage; the index is rebuilt from block_to_cov (after the F26 repair) *)
+Definition group_counts (m : smap) (r : Z) : list Z :=
+  map (fun g => zcount valid (zslice (sp m) (g * r) ((g + 1) * r))) (zrange 0 (zlen (sp m) / r)).
+
+Definition fracdet_idx (m : smap) (r : Z) : list Z :=
+  cov_make_from_pixels (ncov m) (nfine m / r) (block_to_cov (nfine m) (idx m)).
+
+(* get_single_covpix_map (healSparseMap.py:1929-1973), covered branch *)
+Definition single_covpix (m : smap) (c : Z) : smap :=
+  mkmap (nfine m) (cov_make_from_pixels (ncov m) (nfine m) [c])
+        (zslice (sp m) 0 (nfine m) ++ zslice (sp m) (off m c) (off m c + nfine m))
+        (blank m) None.
+
 (* ---- the published layout (docs/filespec.rst) as a boolean predicate ----
    [b2c] is the block -> coverage pixel table to be checked (the model's own, or the
    implementation's _block_to_cov_index when the predicate is used as a monitor). *)
